@@ -453,6 +453,18 @@ pub(crate) fn lock_acquire(class: &'static str) {
     });
 }
 
+/// Lock tracer: a scope guard. Declared just before the real guard in the same scope, it is dropped just after it.
+pub(crate) struct LockScope(&'static str);
+
+impl Drop for LockScope {
+    fn drop(&mut self) { lock_release(self.0); }
+}
+
+pub(crate) fn lock_scope(class: &'static str) -> LockScope {
+    lock_acquire(class);
+    LockScope(class)
+}
+
 /// Lock tracer: the current thread released its most recent lock of class `class`.
 pub(crate) fn lock_release(class: &'static str) {
     with_ctx(|ctx| {
